@@ -562,6 +562,38 @@ func init() {
 			for i := 0; i < n/2; i++ {
 				add(genRrCase(r, 1+r.Intn(4), 0, 0, 8+r.Intn(12), 1+r.Intn(2)))
 			}
+			// a field read by the string-hash parser: lists of two and more strings in documents and assignments (typed and
+			// untyped) -- each string is its own value, wherever it stands in its list
+			{
+				strs := func(t string, ss ...string) TV {
+					l := make([]TV, len(ss))
+					for i, x := range ss {
+						l[i] = tvStr(x)
+					}
+					if t == "" {
+						return tvList(l...)
+					}
+					return tvSlice(t, l...)
+				}
+				docs := []eDoc{
+					{ID: 8, Cons: []eConj{{{F: 1, Inc: true, V: strs("[]string", "bj", "sh")}}, {{F: 1, Inc: true, V: strs("[]string", "gz", "sz", "hz")}, {F: 0, Inc: true, V: tvSlice("[]int", tvInt("int", 1))}}}},
+					{ID: 9, Cons: []eConj{{{F: 1, Inc: false, V: strs("[]string", "bj", "sh")}}}},
+					{ID: 10, Cons: []eConj{{{F: 1, Inc: true, V: strs("", "sh", "bj")}}}},
+					{ID: 11, Cons: []eConj{{{F: 1, Inc: true, V: tvStr("bjsh")}}}},
+				}
+				var qs []eQuery
+				for _, v := range []TV{tvStr("sh"), tvStr("bj"), tvStr("bjsh"), strs("[]string", "xx", "sh"), strs("[]string", "sh", "xx"), strs("", "xx", "hz"), strs("[]string", "gz", "sz"), tvStr("hz"), tvStr("gzsz")} {
+					qs = append(qs, eQuery{A: []eAssign{{F: 1, V: v}}}, eQuery{A: []eAssign{{F: 1, V: v}, {F: 0, V: tvInt("int", 1)}}})
+				}
+				for _, kind := range []string{"kgroups", "compact"} {
+					add(eCase{Kind: kind, Policy: "error", Parsers: map[int]string{1: "strhash"}, Docs: docs, Queries: qs})
+				}
+				c := rCase{Fields: []rField{{F: 0, Cont: "default"}, {F: 1, Cont: "default", Parser: "strhash"}}, Docs: docs}
+				for _, q := range qs {
+					c.Ops = append(c.Ops, rOp{S: 0, Op: "reset"}, rOp{S: 0, Op: "retrieve", A: q.A}, rOp{S: 0, Op: "raw"})
+				}
+				add(c)
+			}
 			// builds served from a cache provider: the collector must get the same conjunctions (include-free
 			// conjunctions with long exclude lists next to other satisfied conjunctions of the same document)
 			for _, kind := range []string{"kgroups", "compact"} {
